@@ -1,4 +1,9 @@
 //! C11: the real `ShmWriter::write` started from every generation value.
+//!   gen <g> [<variant>]   variant 0 (default): a record that differs from the published one in
+//!   every field; 1: the published record with only the status changed; 2: the published record
+//!   again; 3: the daemon is restarted first (ShmWriter::new over the file with generation g), then
+//!   publishes.  The generation protocol must not depend on any of this.
+//! -> <g> <generation during the copy | -1> <generation after>
 use crate::util::*;
 use crate::Ctx;
 use clock_bound_shm::verif::{self, Access, Reply};
@@ -9,30 +14,50 @@ use std::rc::Rc;
 pub struct GenCtx {
     writer: ShmWriter,
     map: RawMap,
+    path: std::path::PathBuf,
+    last: (i64, u8),
 }
 
-fn ceb(n: i64) -> ClockErrorBound {
+fn ceb_with(n: i64, st: u8) -> ClockErrorBound {
     ClockErrorBound::new(
         libc::timespec { tv_sec: n, tv_nsec: 1 },
         libc::timespec { tv_sec: n + 1000, tv_nsec: 0 },
         n,
         1,
         0,
-        ClockStatus::Synchronized,
+        match st % 3 {
+            0 => ClockStatus::Synchronized,
+            1 => ClockStatus::FreeRunning,
+            _ => ClockStatus::Unknown,
+        },
     )
 }
 
 pub fn run(ctx: &mut Ctx, toks: &[&str]) -> String {
     let g: u16 = p(toks[0]);
+    let variant: u32 = if toks.len() > 1 { p(toks[1]) } else { 0 };
     if ctx.gen.is_none() {
         let path = scratch_dir().join("gen-segment");
         let _ = std::fs::remove_file(&path);
         let writer = ShmWriter::new(&path).expect("ShmWriter::new");
         let map = RawMap::open(&path, 72);
-        ctx.gen = Some(GenCtx { writer, map });
+        ctx.gen = Some(GenCtx { writer, map, path, last: (-1, 0) });
     }
     let c = ctx.gen.as_mut().unwrap();
     c.map.set_u16(OFF_GENERATION, g);
+    if variant == 3 {
+        // the previous daemon is gone (its mapping with it); a new one starts over the file as it is
+        let path = c.path.clone();
+        let writer = ShmWriter::new(&path).expect("ShmWriter::new (restart)");
+        let old = std::mem::replace(&mut c.writer, writer);
+        drop(old);
+        c.map = RawMap::open(&path, 72);
+    }
+    let rec = match variant {
+        1 if c.last.0 >= 0 => (c.last.0, c.last.1 + 1),
+        2 if c.last.0 >= 0 => c.last,
+        _ => (g as i64 + if c.last.0 == g as i64 { 100000 } else { 0 }, 0),
+    };
     // Observe the generation at every cell store of the copy: it must be one constant value.
     let base = c.map.base as usize;
     let seen: Rc<Cell<(i64, i64, u32)>> = Rc::new(Cell::new((-1, -1, 0)));
@@ -47,7 +72,8 @@ pub fn run(ctx: &mut Ctx, toks: &[&str]) -> String {
         }
         Reply::Pass
     })));
-    c.writer.write(&ceb(g as i64));
+    c.writer.write(&ceb_with(rec.0, rec.1));
+    c.last = rec;
     verif::install(None);
     let (lo, hi, n) = seen.get();
     let post = c.map.u16_at(OFF_GENERATION);
